@@ -988,9 +988,9 @@ def run(ctx, n=None):
     b = Batch()
     check_consts(ctx, b)
     corpus_cases(ctx, b)
-    n = n or ctx.pick(220, 2500)
+    n = n or ctx.pick(1500, 12000)
     for i in range(n):
-        small = i < ctx.pick(25, 150)
+        small = i < ctx.pick(60, 400)
         gen_lp(ctx, b, rng, small)
         gen_ck(ctx, b, rng, small)
         gen_v3(ctx, b, rng, small)
@@ -1001,7 +1001,7 @@ def run(ctx, n=None):
 
 
 def widen(ctx):
-    run(ctx, n=1500)
+    run(ctx, n=6000)
 
 
 # ---------------------------------------------------------------- replay
